@@ -16,33 +16,33 @@ namespace Unc
 
 /-- operations of a history (without kills) -/
 inductive HistOp
-  | userWrite (c : Bytes)
+  | userWrite (c : FBytes)
   | run (cfg : Nat)
   deriving DecidableEq, Repr
 
 /-- one `--replace` run with configuration `cfg` -/
-def runProg (fx : Fix) (F : Nat → Bytes → Bytes) (h : Bytes → Bytes) (cfg : Nat) : Prog :=
+def runProg (fx : Fix) (F : Nat → FBytes → FBytes) (h : FBytes → FBytes) (cfg : Nat) : Prog :=
   doSourceFile fx .replace (fun c => .ok (F cfg c)) h
 
 /-- the implementation: what the model of the C++ does to the file system -/
-def applyOp (fx : Fix) (F : Nat → Bytes → Bytes) (h : Bytes → Bytes) (s : FS) : HistOp → FS
+def applyOp (fx : Fix) (F : Nat → FBytes → FBytes) (h : FBytes → FBytes) (s : FS) : HistOp → FS
   | .userWrite c => { s with target := some c }
   | .run cfg => (exec (runProg fx F h cfg) s []).fs
 
-def runHist (fx : Fix) (F : Nat → Bytes → Bytes) (h : Bytes → Bytes) (s : FS) (ops : List HistOp) : FS :=
+def runHist (fx : Fix) (F : Nat → FBytes → FBytes) (h : FBytes → FBytes) (s : FS) (ops : List HistOp) : FS :=
   ops.foldl (applyOp fx F h) s
 
 /-- the reference model of the protocol -/
 structure Spec where
   /-- content of the file -/
-  file : Bytes
+  file : FBytes
   /-- what the backup file has to hold (`none`: no backup yet) -/
-  g : Option Bytes
+  g : Option FBytes
   /-- the content uncrustify last left in the file (`none`: never ran) -/
-  lastOut : Option Bytes
+  lastOut : Option FBytes
   deriving DecidableEq, Repr
 
-def Spec.step (F : Nat → Bytes → Bytes) (sp : Spec) : HistOp → Spec
+def Spec.step (F : Nat → FBytes → FBytes) (sp : Spec) : HistOp → Spec
   | .userWrite c => { sp with file := c }
   | .run cfg =>
     { file := F cfg sp.file
@@ -50,25 +50,25 @@ def Spec.step (F : Nat → Bytes → Bytes) (sp : Spec) : HistOp → Spec
       g := if some sp.file = sp.lastOut then sp.g else some sp.file
       lastOut := some (F cfg sp.file) }
 
-def specHist (F : Nat → Bytes → Bytes) (sp : Spec) (ops : List HistOp) : Spec :=
+def specHist (F : Nat → FBytes → FBytes) (sp : Spec) (ops : List HistOp) : Spec :=
   ops.foldl (Spec.step F) sp
 
 /-- every content the digest is ever taken of during the history -/
-def occurring (F : Nat → Bytes → Bytes) (sp : Spec) : List HistOp → List Bytes
+def occurring (F : Nat → FBytes → FBytes) (sp : Spec) : List HistOp → List FBytes
   | [] => sp.file :: sp.lastOut.toList
   | op :: ops => sp.file :: sp.lastOut.toList ++ occurring F (sp.step F op) ops
 
 /-- `h` does not collide on the contents in `C` -/
-def InjOn (h : Bytes → Bytes) (C : List Bytes) : Prop :=
+def InjOn (h : FBytes → FBytes) (C : List FBytes) : Prop :=
   ∀ a b, a ∈ C → b ∈ C → h a = h b → a = b
 
 /-- C14's invariant: the implementation state agrees with the reference model -/
-def BackupInv (h : Bytes → Bytes) (s : FS) (sp : Spec) : Prop :=
+def BackupInv (h : FBytes → FBytes) (s : FS) (sp : Spec) : Prop :=
   s.target = some sp.file ∧ s.bak = sp.g ∧ s.md5 = sp.lastOut.map h
 
 /-- the file system before uncrustify ever touched the file -/
-def FS.fresh (c : Bytes) : FS := ⟨some c, none, none, none⟩
-def Spec.fresh (c : Bytes) : Spec := ⟨c, none, none⟩
+def FS.fresh (c : FBytes) : FS := ⟨some c, none, none, none⟩
+def Spec.fresh (c : FBytes) : Spec := ⟨c, none, none⟩
 
 /-! ## Kills -/
 
@@ -101,7 +101,7 @@ def inBackupWindow (cs : List Sys) : Prop :=
 
 /-- operations of a history with kills outside the two windows -/
 inductive KOp
-  | userWrite (c : Bytes)
+  | userWrite (c : FBytes)
   | run (cfg : Nat)
   /-- killed before the backup file was touched (or no backup was due) and before the rename -/
   | runKilledBeforeBackup (cfg : Nat)
@@ -109,7 +109,7 @@ inductive KOp
   | runKilledAfterBackup (cfg : Nat)
   deriving DecidableEq, Repr
 
-def KStep (fx : Fix) (F : Nat → Bytes → Bytes) (h : Bytes → Bytes) (s : FS) : KOp → FS → Prop
+def KStep (fx : Fix) (F : Nat → FBytes → FBytes) (h : FBytes → FBytes) (s : FS) : KOp → FS → Prop
   | .userWrite c, s' => s' = { s with target := some c }
   | .run cfg, s' => s' = (exec (runProg fx F h cfg) s []).fs
   | .runKilledBeforeBackup cfg, s' =>
@@ -117,23 +117,23 @@ def KStep (fx : Fix) (F : Nat → Bytes → Bytes) (h : Bytes → Bytes) (s : FS
   | .runKilledAfterBackup cfg, s' =>
     ∃ cs, CrashAt s [] (runProg fx F h cfg) (s', cs) ∧ early cs ∧ ∃ bs, Sys.write .bak bs ∈ cs
 
-def KRun (fx : Fix) (F : Nat → Bytes → Bytes) (h : Bytes → Bytes) : FS → List KOp → FS → Prop
+def KRun (fx : Fix) (F : Nat → FBytes → FBytes) (h : FBytes → FBytes) : FS → List KOp → FS → Prop
   | s, [], s' => s' = s
   | s, op :: ops, s' => ∃ s1, KStep fx F h s op s1 ∧ KRun fx F h s1 ops s'
 
 /-- what a killed run means for the reference model: killed before the backup = it did not happen;
     killed after the backup = the backup decision happened, nothing else -/
-def Spec.kstep (F : Nat → Bytes → Bytes) (sp : Spec) : KOp → Spec
+def Spec.kstep (F : Nat → FBytes → FBytes) (sp : Spec) : KOp → Spec
   | .userWrite c => sp.step F (.userWrite c)
   | .run cfg => sp.step F (.run cfg)
   | .runKilledBeforeBackup _ => sp
   | .runKilledAfterBackup _ => { sp with g := if some sp.file = sp.lastOut then sp.g else some sp.file }
 
-def kspecHist (F : Nat → Bytes → Bytes) (sp : Spec) (ops : List KOp) : Spec :=
+def kspecHist (F : Nat → FBytes → FBytes) (sp : Spec) (ops : List KOp) : Spec :=
   ops.foldl (Spec.kstep F) sp
 
 /-- every content the digest is ever taken of during a history with kills -/
-def koccurring (F : Nat → Bytes → Bytes) (sp : Spec) : List KOp → List Bytes
+def koccurring (F : Nat → FBytes → FBytes) (sp : Spec) : List KOp → List FBytes
   | [] => sp.file :: sp.lastOut.toList
   | op :: ops => sp.file :: sp.lastOut.toList ++ koccurring F (sp.kstep F op) ops
 
